@@ -5,6 +5,7 @@ import (
 	stdjson "encoding/json"
 	"fmt"
 	"math/rand"
+	"os"
 	"reflect"
 	"runtime/debug"
 	"strings"
@@ -248,6 +249,9 @@ func c02Show(v interface{}) string {
 	if len(s) > 300 {
 		s = s[:300] + "…"
 	}
+	if os.Getenv("VERIF_GOSYNTAX") != "" {
+		s += fmt.Sprintf(" %#v", reflect.ValueOf(v).Elem().Interface())
+	}
 	return s
 }
 
@@ -298,12 +302,150 @@ func c02Compare(c *Ctx, label string, t reflect.Type, doc string, pre func() ref
 		}
 	}
 	ok := pan == "" && (gerr == nil) == (serr == nil) && (gerr != nil || reflect.DeepEqual(g.Interface(), s.Interface()))
+	if !ok && pre != nil && strings.Contains(doc, "null") && c02HoldsPtrPtr(pre(), 0) {
+		c.Oracle(mode+"/"+label, fmt.Sprintf("%s <- %s", genTypeString(t), doc), "", "", false, "C02-null-interface-holding-ptrptr")
+		return
+	}
 	c.Oracle(mode+"/"+label, fmt.Sprintf("%s <- %s", genTypeString(t), doc),
 		fmt.Sprintf("%s err=%s panic=%s", c02Show(g.Interface()), errT(gerr), pan),
 		fmt.Sprintf("%s err=%v", c02Show(s.Interface()), serr), ok, c02ClassOf(t, doc, g, s, gerr, serr))
 }
 
-func c02ClassOf(t reflect.Type, doc string, g, s reflect.Value, gerr, serr error) string { return "" }
+var c02TextUnmarshalerT = reflect.TypeOf((*interface{ UnmarshalText([]byte) error })(nil)).Elem()
+
+// c02BadMapKey: t contains a map whose key type encoding/json cannot decode into (not a string or
+// integer kind and not a TextUnmarshaler)
+func c02BadMapKey(t reflect.Type, depth int) bool {
+	if depth > 10 {
+		return false
+	}
+	switch t.Kind() {
+	case reflect.Map:
+		k := t.Key()
+		ok := false
+		switch k.Kind() {
+		case reflect.String, reflect.Int, reflect.Int8, reflect.Int16, reflect.Int32, reflect.Int64,
+			reflect.Uint, reflect.Uint8, reflect.Uint16, reflect.Uint32, reflect.Uint64, reflect.Uintptr:
+			ok = true
+		}
+		if reflect.PtrTo(k).Implements(c02TextUnmarshalerT) {
+			ok = true
+		}
+		if !ok {
+			return true
+		}
+		return c02BadMapKey(t.Elem(), depth+1)
+	case reflect.Ptr, reflect.Slice, reflect.Array:
+		return c02BadMapKey(t.Elem(), depth+1)
+	case reflect.Struct:
+		for i := 0; i < t.NumField(); i++ {
+			if c02BadMapKey(t.Field(i).Type, depth+1) {
+				return true
+			}
+		}
+	}
+	return false
+}
+
+// c02HoldsPtrPtr: an interface in v holds a pointer to a pointer
+func c02HoldsPtrPtr(v reflect.Value, depth int) bool {
+	if depth > 10 || !v.IsValid() {
+		return false
+	}
+	switch v.Kind() {
+	case reflect.Interface:
+		if v.IsNil() {
+			return false
+		}
+		e := v.Elem()
+		if e.Kind() == reflect.Ptr && e.Type().Elem().Kind() == reflect.Ptr {
+			return true
+		}
+		return c02HoldsPtrPtr(e, depth+1)
+	case reflect.Ptr:
+		if v.IsNil() {
+			return false
+		}
+		return c02HoldsPtrPtr(v.Elem(), depth+1)
+	case reflect.Slice, reflect.Array:
+		for i := 0; i < v.Len(); i++ {
+			if c02HoldsPtrPtr(v.Index(i), depth+1) {
+				return true
+			}
+		}
+	case reflect.Map:
+		for _, k := range v.MapKeys() {
+			if c02HoldsPtrPtr(v.MapIndex(k), depth+1) {
+				return true
+			}
+		}
+	case reflect.Struct:
+		for i := 0; i < v.NumField(); i++ {
+			if c02HoldsPtrPtr(v.Field(i), depth+1) {
+				return true
+			}
+		}
+	}
+	return false
+}
+
+func c02ClassOf(t reflect.Type, doc string, g, s reflect.Value, gerr, serr error) string {
+	if c02BadMapKey(t, 0) {
+		return "C02-map-key-type-unsupported"
+	}
+	return ""
+}
+
+// c02Tree renders a value decoded into interface{} (with UseNumber) in the driver's notation
+func c02Tree(v interface{}) string {
+	switch t := v.(type) {
+	case nil:
+		return "z"
+	case bool:
+		if t {
+			return "t"
+		}
+		return "f"
+	case json.Number:
+		return "n" + hx([]byte(string(t)))
+	case string:
+		return "s" + hx([]byte(t))
+	case []interface{}:
+		parts := []string{fmt.Sprintf("a%d", len(t))}
+		for _, e := range t {
+			parts = append(parts, c02Tree(e))
+		}
+		return strings.Join(parts, " ")
+	case map[string]interface{}:
+		var ks []string
+		for k := range t {
+			ks = append(ks, k)
+		}
+		sortStrings(ks)
+		parts := []string{fmt.Sprintf("o%d", len(t))}
+		for _, k := range ks {
+			parts = append(parts, "k"+hx([]byte(k)), c02Tree(t[k]))
+		}
+		return strings.Join(parts, " ")
+	}
+	return fmt.Sprintf("?%T", v)
+}
+
+func c02TreeOps(c *Ctx, doc string) {
+	var v interface{}
+	err, pan := safeDo(func() error {
+		d := json.NewDecoder(strings.NewReader(doc))
+		d.UseNumber()
+		return d.Decode(&v)
+	})
+	out := "err"
+	if pan != "" {
+		out = "panic"
+	} else if err == nil {
+		out = c02Tree(v)
+	}
+	c.Op("dec 0 "+hx([]byte(doc)), out, true, "tree")
+}
 
 func runC02(c *Ctx) {
 	c.Rep.Rule = "destination types from the generator grammar plus Unmarshaler / TextUnmarshaler implementers; documents generated from the type (right kinds most of the time; integers and floats at and beyond every range boundary; strings with every escape class; case variants, unknown and duplicate keys; wrong kinds, nulls, surplus and missing array elements) with two noise levels; zero and pre-populated destinations; Unmarshal, Decoder, UseNumber, DisallowUnknownFields; oracle encoding/json: error parity and reflect.DeepEqual; non-trivial = every case"
@@ -328,6 +470,10 @@ func runC02(c *Ctx) {
 			}
 			mode := []string{"unmarshal", "unmarshal", "decoder", "usenumber", "disallow", "unmarshal"}[di]
 			c02Compare(c, label, t, doc, nil, mode)
+			if di < 2 {
+				c02TreeOps(c, doc)
+				c02TreeOps(c, d.any(4))
+			}
 			if di == 1 {
 				// pre-populated destination: the same random value for both libraries
 				seed := rng.Int63()
